@@ -17,7 +17,7 @@ import numpy as np
 
 from .. import universe as U
 from ..core import guarded, MachineryError
-from ..project import exact_int
+from ..project import exact_int, fx
 from ..tags_common import common_scale, mesh_am, mesh_checksums, points_enc, quiet, kind_of
 
 RULE = ('scenario = an initial mesh (integer / dyadic coordinates) with named sub-domains and boundaries and a '
@@ -29,7 +29,7 @@ RULE = ('scenario = an initial mesh (integer / dyadic coordinates) with named su
 CLS = {'line': 'MeshLine1', 'tri': 'MeshTri1', 'quad': 'MeshQuad1', 'tet': 'MeshTet1', 'hex': 'MeshHex1',
        'wedge': 'MeshWedge1'}
 FACETKIND = {'tri': 'line', 'quad': 'line', 'tet': 'tri', 'hex': 'quad', 'line': 'point', 'wedge': 'quad'}
-NOPAR = {'elements': [], 'ix': [], 'skips': 0, 'skipb': 0, 'fnum': [], 'fden': [], 'd': [], 'axis': 0, 'c': 0,
+NOPAR = {'elements': [], 'ix': [], 'skips': 0, 'skipb': 0, 'fnum': [], 'fden': [], 'd': [], 'nrm': [], 'p0': [], 'nn': 0,
          'A': [], 'b': [], 'facets': [], 'fv': [], 'ret': [], 'proj': [], 'sign': [], 'xmap': []}
 MAXABS = {1: 10**4, 2: 4096, 3: 200}
 MAXCELLS = 72
@@ -187,12 +187,11 @@ def apply_step(m, st):
         par['d_raw'] = st['d']
         return [m], [r], par, r
     if op == 'mirrored':
-        n = [0.0] * m.p.shape[0]
-        n[st['axis']] = float(st.get('nlen', 1))
-        pt = None if st.get('c') is None else tuple(float(st['c']) if i == st['axis'] else float(st.get('off', 0))
-                                                    for i in range(m.p.shape[0]))
-        r = m.mirrored(tuple(n), pt) if pt is not None else m.mirrored(tuple(n))
-        par.update(axis=st['axis'] + 1, c_raw=0 if st.get('c') is None else st['c'])
+        # reflection through the plane with the integer normal st['n'] through the point st['p0'] (None: the origin)
+        n = [int(x) for x in st['n']]
+        pt = None if st.get('p0') is None else tuple(float(x) for x in st['p0'])
+        r = m.mirrored(tuple(float(x) for x in n), pt) if pt is not None else m.mirrored(tuple(float(x) for x in n))
+        par.update(nrm=n, nn=int(sum(x * x for x in n)), p0_raw=[0.0] * len(n) if pt is None else list(pt))
         return [m], [r], par, r
     if op == 'morphed':
         r = m.morphed(*_morph_funcs(st['A'], st['b']))
@@ -316,12 +315,21 @@ def execute(rec):
     for it in raw:
         if not it['err']:
             arrays += [x.p for x in it['pres']] + [x.p for x in it['posts']]
+            if 'p0_raw' in it['par']:          # the plane point has to be representable at the scenario's scale as well
+                q = np.array([it['par']['p0_raw']], dtype=np.float64).T
+                arrays.append(q % 1)                       # (only its fractional part matters for the scale)
     scale = _safe_scale(arrays) if arrays else 1
+    lat = 0
+    if rec.get('lattice'):
+        # reflections through oblique planes: the code's coordinates are not exact (it normalises the normal); they are
+        # logged as Fx numbers and TLC snaps them to the lattice Z / lat (lat = scale of the exact part * the product
+        # of the |normal|^2 of the oblique reflections), see spec/TraceC18.tla
+        scale = lat = _lattice_scale(rec, arrays)
     events = []
     for it in raw:
         st = it['st']
         ev = {'a': 'Op', 'op': it['op'], 'err': it['err'], 'tags': {'op': it['op']}, 'pre': [], 'post': [],
-              'par': dict(NOPAR), 'ck_pre': [], 'ck_post': [], 'scale': int(scale or 0), 'self': 1}
+              'par': dict(NOPAR), 'ck_pre': [], 'ck_post': [], 'scale': int(scale or 0), 'self': 1, 'lat': int(lat or 0)}
         events.append(ev)
         if it['err']:
             continue
@@ -330,11 +338,19 @@ def execute(rec):
             continue
         pres, posts, par = it['pres'], it['posts'], it['par']
         with quiet():
-            pts = points_enc([x.p for x in pres] + [x.p for x in posts], scale)
+            if lat:
+                pts = [[] for _ in pres + posts]
+            else:
+                pts = points_enc([x.p for x in pres] + [x.p for x in posts], scale)
             ev['pre'] = [_am(x, pts[j]) for j, x in enumerate(pres)]
             tk = FACETKIND.get(kind_of(pres[0])) if it['op'] == 'trace' else None
             ev['post'] = [_am(x, pts[len(pres) + j], kind=tk if (tk and kind_of(x) == 'other') else None)
                           for j, x in enumerate(posts)]
+            if lat:
+                for rec_am, x in zip(ev['pre'] + ev['post'], pres + posts):
+                    rec_am['pfx'] = [[fx(v) for v in col] for col in np.asarray(x.p, dtype=np.float64).T]
+                    if any(v is None for col in rec_am['pfx'] for v in col):
+                        ev['err'], rec_am['pfx'] = 'NonFiniteCoordinates', []
             # operands after the call: the chain's current mesh is the same object, further operands are rebuilt
             ev['ck_pre'] = [it['ck_self']] + ([par['_cko'][0]] if '_cko' in par else [])
             ev['ck_post'] = [mesh_checksums(it['cur'])] + ([par['_cko'][1]] if '_cko' in par else [])
@@ -347,7 +363,7 @@ def execute(rec):
                 P[k] = [int(x) + 1 for x in par[k]]
         if 'ix' in par:
             P['ix'] = [int(x) + 1 for x in np.asarray(par['ix'])]
-        for k in ('skips', 'skipb', 'axis', 'fnum', 'fden', 'facets', 'fv', 'ret', 'proj', 'sign', 'A'):
+        for k in ('skips', 'skipb', 'nrm', 'nn', 'fnum', 'fden', 'facets', 'fv', 'ret', 'proj', 'sign', 'A'):
             if k in par:
                 P[k] = par[k]
         if 'xmap' in par:
@@ -359,9 +375,9 @@ def execute(rec):
         if 'b_raw' in par:
             P['b'] = [exact_int(x, scale) for x in par['b_raw']]
             exact = exact and None not in P['b']
-        if 'c_raw' in par:
-            P['c'] = exact_int(par['c_raw'], 2 * scale)          # TWICE the plane's coordinate (2c - x is the image)
-            exact = exact and P['c'] is not None
+        if 'p0_raw' in par:
+            P['p0'] = [exact_int(x, scale) for x in par['p0_raw']]
+            exact = exact and None not in P['p0']
         if 'self' in par:
             ev['self'] = par['self']
         if not exact:
@@ -386,6 +402,29 @@ def _safe_scale(arrays):
     lo = min(float(a.min()) for a in arrays) * s
     hi = max(float(a.max()) for a in arrays) * s
     return s if (hi - lo) <= {1: 10**4, 2: 4096, 3: 200}[dim] else None
+
+
+def _lattice_scale(rec, arrays):
+    """lat = s * product of n.n over the oblique reflections of the recipe, s = the power of two that makes the initial
+    mesh and the plane points integral; None if the coordinates would leave the 32-bit-safe range at that scale."""
+    exact = [np.array(rec['mesh']['p'], dtype=np.float64)]
+    den = 1
+    for st in rec['steps']:
+        if st['op'] == 'mirrored':
+            nn = int(sum(int(x) ** 2 for x in st['n']))
+            if sum(1 for x in st['n'] if x) > 1:
+                den *= nn
+            if st.get('p0') is not None:
+                exact.append(np.array([st['p0']], dtype=np.float64).T)
+        elif st['op'] == 'translated':
+            exact.append(np.array([st['d']], dtype=np.float64).T)
+    s = common_scale(exact, maxpow=4, maxabs=2**20)
+    if s is None:
+        return None
+    lat = s * den
+    dim = max(a.shape[0] for a in arrays)
+    ext = max(float(np.abs(a).max()) for a in arrays) * lat
+    return lat if (lat < 2**15 and ext <= {1: 10**4, 2: 2048, 3: 200}[dim]) else None
 
 
 def _fits(meshes):
@@ -553,10 +592,12 @@ def propose(m, rng, allow):
     if op == 'translated':
         return {'op': op, 'd': [float(rng.integers(-3, 4)) / (2 if rng.random() < 0.2 else 1) for _ in range(dim)]}
     if op == 'mirrored':
-        st = {'op': op, 'axis': int(rng.integers(dim)), 'nlen': int([1, 2, -1][int(rng.integers(3))])}
+        # axis-parallel normals of any length and sign keep every coordinate exact (oblique planes: lattice family)
+        n = [0] * dim
+        n[int(rng.integers(dim))] = int([1, 2, -1][int(rng.integers(3))])
+        st = {'op': op, 'n': n, 'p0': None}
         if rng.random() < 0.6:
-            st['c'] = float(rng.integers(-2, 4)) / (2 if rng.random() < 0.2 else 1)
-            st['off'] = float(rng.integers(-2, 3))
+            st['p0'] = [float(rng.integers(-2, 4)) / (2 if rng.random() < 0.2 else 1) for _ in range(dim)]
         return st
     if op == 'morphed':
         while True:
@@ -744,6 +785,70 @@ def _tagged_spec(kind, p, t, rng, oriented=False):
     return spec
 
 
+OBLIQUE = {2: [(1, 1), (1, -1), (1, 2), (2, -1), (-1, 1), (2, 1), (3, 4)],
+           3: [(1, 1, 0), (0, 1, -1), (1, 0, 1), (1, 1, 1), (1, -1, 1), (1, -1, 2), (1, 2, 2)]}
+
+
+def partition_tags(m, rng, nb=3, ns=2):
+    """EVERY facet (boundary and interior) and every cell gets exactly one name: whatever an operation adds to or
+    drops from a name shows up."""
+    nf, nt = m.facets.shape[1], m.t.shape[1]
+    fa = rng.integers(nb, size=nf)
+    ca = rng.integers(ns, size=nt)
+    bnd = {'part%d' % k: {'f': [int(x) for x in np.nonzero(fa == k)[0]], 'ori': None} for k in range(nb)}
+    sub = {'zone%d' % k: [int(x) for x in np.nonzero(ca == k)[0]] for k in range(ns)}
+    return bnd, sub
+
+
+def split_specs(tier, rng):
+    """tagged quadrilateral (hexahedral, prismatic) meshes beyond the smallest cases for to_meshtri / to_meshtet:
+    the library's own constructors with their numbering (refined unit square, tensor grids), hand-numbered strips,
+    scrambled vertex / cell numberings and local orders; tags: the default sides, a partition of all facets and cells."""
+    import skfem
+    thorough = tier == 'thorough'
+    out = []
+    with quiet():
+        base = [skfem.MeshQuad().refined(1), skfem.MeshQuad().refined(2),
+                skfem.MeshQuad.init_tensor(np.arange(4.), np.arange(3.)),
+                skfem.MeshQuad.init_tensor(np.arange(5.), np.arange(4.)),
+                skfem.MeshQuad.init_tensor(np.arange(6.), np.arange(5.))]
+        arrays = [('quad', m.p.copy(), m.t.copy()) for m in base]
+    # hand-numbered strips: cells in a row, vertex numbers assigned cell by cell in varying order
+    for ncell in (3, 5, 8):
+        p, t = U.quad_grid(ncell, 1)
+        arrays.append(('quad', p, t))
+        p2, t2 = U.renumber(p, t, np.argsort(np.argsort(-p[0] + 0.5 * p[1])))
+        arrays.append(('quad', p2, t2[:, ::-1]))
+    for (kind, p, t) in list(arrays):
+        for _ in range(3 if thorough else 1):
+            p2, t2 = U.renumber(p, t, rng.permutation(p.shape[1]))
+            t2 = U.permute_cells(t2, rng.permutation(t2.shape[1]))
+            t2 = U.apply_local_orders(kind, t2, rng)
+            arrays.append((kind, p2, t2))
+    for (kind, p, t) in arrays:
+        spec = _mesh_spec(kind, p, t)
+        with quiet():
+            m = make_mesh(spec)
+            if rng.random() < 0.4:
+                d = m.with_defaults()
+                bnd = {k: {'f': [int(x) for x in v], 'ori': None} for k, v in d.boundaries.items()}
+                bnd['inner'] = {'f': [int(x) for x in rng.permutation(np.nonzero(m.f2t[1] >= 0)[0])[:6]], 'ori': None}
+                sub = {'half': [int(x) for x in np.nonzero(m.p[0, m.t].mean(axis=0) < m.p[0].mean())[0]]}
+            else:
+                bnd, sub = partition_tags(m, rng, nb=int(rng.integers(2, 5)))
+        spec['bnd'], spec['sub'] = bnd, sub
+        out.append(spec)
+    # hexahedra / prisms: to_meshtet carries no tags, the partition of bigger grids is checked
+    for dims in ((2, 2, 2), (3, 2, 1)):
+        p, t = U.hex_grid(*dims)
+        t = U.apply_local_orders('hex', t, rng)
+        out.append(_mesh_spec('hex', p, t))
+    p2, t2 = U.tri_lattice(2, 2, (0, 1, 1, 0))
+    p, t = U.wedge_extrude(p2, t2, 2)
+    out.append(_mesh_spec('wedge', p, t))
+    return out
+
+
 def generate(tier, seed):
     rng = np.random.default_rng(seed + 18)
     thorough = tier == 'thorough'
@@ -798,6 +903,54 @@ def generate(tier, seed):
             spec, other = other, spec
         recs.append({'driver': 'surgery', 'mesh': spec, 'steps': [{'op': 'extrude', 'other': other}],
                      'family': 'extrude'})
+    # (8) to_meshtri (both styles) / to_meshtet on bigger tagged meshes under many numberings
+    for n, spec in enumerate(split_specs(tier, rng)):
+        if spec['kind'] == 'quad':
+            ops = ['to_meshtri_x', 'to_meshtri'] if (thorough or n % 2 == 0) else ['to_meshtri_x']
+        else:
+            ops = ['to_meshtet']
+        for op in ops:
+            st = {'op': op, 'withx': int(rng.integers(2))} if op != 'to_meshtet' else {'op': op}
+            recs.append({'driver': 'surgery', 'mesh': spec, 'steps': [st], 'family': 'split-tagged'})
+    # (9) reflections through planes that are neither axis-parallel nor through the origin (mode L on the exact
+    # rational image, see TraceC18): tagged meshes, an exact first step, the reflection, and a second reflection
+    # (through the same plane: the mesh comes back; or through another plane)
+    for n, (kind, p, t) in enumerate(specs):
+        if kind == 'line' or (not thorough and n % 2 and kind != 'hex'):
+            continue
+        dim = np.asarray(p).shape[0]
+        for rep_ in range(3 if thorough else 1):
+            spec = _tagged_spec(kind, p, t, rng, oriented=(n % 3 == 0))
+            nrm = list(OBLIQUE[dim][int(rng.integers(len(OBLIQUE[dim])))])
+            while True:
+                p0 = [int(x) for x in rng.integers(-2, 4, size=dim)]
+                if any(p0) and sum(a * b for a, b in zip(nrm, p0)) != 0:
+                    break
+            steps = []
+            if rng.random() < 0.5:
+                steps.append({'op': 'translated', 'd': [float(x) for x in rng.integers(-2, 3, size=dim)]})
+            steps.append({'op': 'mirrored', 'n': nrm, 'p0': [float(x) for x in p0]})
+            how = int(rng.integers(3))
+            if how == 0:
+                steps.append({'op': 'mirrored', 'n': [-x for x in nrm] if rng.random() < 0.5 else nrm,
+                              'p0': [float(x) for x in p0]})
+            elif how == 1:
+                n2 = list(OBLIQUE[dim][int(rng.integers(3))])
+                steps.append({'op': 'mirrored', 'n': n2, 'p0': [float(x) for x in rng.integers(-1, 3, size=dim)]})
+            else:
+                ax = [0] * dim
+                ax[int(rng.integers(dim))] = 1
+                steps.append({'op': 'mirrored', 'n': ax, 'p0': None})
+            r = {'driver': 'surgery', 'mesh': spec, 'steps': steps, 'family': 'oblique-mirror', 'lattice': 1}
+            with quiet():
+                evs = execute(r)
+            if any(e.get('skipped') for e in evs):          # would leave the 32-bit-safe range at the lattice scale
+                r['steps'] = steps[:-1]
+                with quiet():
+                    evs = execute(r)
+                if any(e.get('skipped') for e in evs):
+                    continue
+            recs.append(r)
     # (7) every base mesh joined (+, @) with a translated / negatively scaled / mirrored / point-reflected image of
     # itself, directly and after a first transformation, and duplicate removal on the raw concatenation
     for n, (kind, p, t) in enumerate(specs):
@@ -893,19 +1046,29 @@ def model(ctx):
     return recs
 
 
+def _machinery_guard(ctx):
+    """an event TraceC18 cannot read is a defect of the harness (exit 2), never a verdict on the library."""
+    for f in ctx.failures:
+        if f['clause'] == 'HarnessInputWellFormed':
+            raise MachineryError('harness produced a malformed C18 event: %s position %s'
+                                 % (f['scenario']['id'], f['pos']))
+
+
 def run(ctx):
     recs = model(ctx)
     n_tlc = len(recs)
     recs += generate(ctx.tier, ctx.seed)
     scs = [scenario(f'C18-{k}', r) for k, r in enumerate(recs)]
     ctx.validate('TraceC18', scs, jvms=8)
+    _machinery_guard(ctx)
     keys = {json.dumps(r, sort_keys=True) for r in recs
             if np.array(r['mesh']['t']).ndim == 2 and np.array(r['mesh']['t']).shape[1] >= 2}
     ctx.notes['distinct_nontrivial'] = len(keys)
     ctx.notes['scenarios_from_tlc_universe'] = n_tlc
     ctx.notes['events_per_operation'] = {k[3:]: ctx.clause_counts.pop(k) for k in list(ctx.clause_counts)
                                          if k.startswith('op_')}
-    ctx.notes['skipped_geometric'] = sum(1 for s in scs for e in s['events'] if e['err'].startswith('harness:'))
+    ctx.notes['skipped_geometric'] = sum(1 for s in scs for e in s['events'] if e.get('skipped'))
+    ctx.notes['lattice_events'] = sum(1 for s in scs for e in s['events'] if e.get('lat'))
     return ctx.finish(rule=RULE, assumptions=[
         'operands are valid meshes (no duplicate points, no unused vertex) with convex, non-degenerate cells; '
         'inputs with unused / duplicate vertices are only handed to remove_unused_nodes / remove_duplicate_nodes',
@@ -927,4 +1090,5 @@ def replay(ctx, doc):
         return ctx.finish(rule=RULE)
     sc2 = scenario(sc['id'], sc['recipe'])
     ctx.validate('TraceC18', [sc2], jvms=8)
+    _machinery_guard(ctx)
     return ctx.finish(rule=RULE)
